@@ -280,7 +280,31 @@ func runC10(p *core.Prog, r *core.Report, tier string) {
 				}
 				a := mc.Common().Args
 				nd := ds.D(a[len(a)-1])
-				okName := nd.Any(func(x *core.VD) bool { return x.Kind == "call" && strings.Contains(x.Name, "setAccountName") }) || (nd.MentionsCall("Wallet") && nd.MentionsCall("Account.Name"))
+				isName := func(d *core.VD) bool {
+					return d.Any(func(x *core.VD) bool { return x.Kind == "call" && strings.Contains(x.Name, "setAccountName") }) || (d.MentionsCall("Wallet") && d.MentionsCall("Account.Name"))
+				}
+				okName := isName(nd)
+				if !okName {
+					// the name handed in by the caller(s): decided at the call sites
+					if prm, isP := a[len(a)-1].(*ssa.Parameter); isP {
+						k := -1
+						for i, q := range f.Params {
+							if q == prm {
+								k = i
+							}
+						}
+						if k >= 0 {
+							if origins := p.ParamOrigins(f, k, 2); len(origins) > 0 {
+								okName = true
+								for _, o := range origins {
+									if !isName(ds.D(o)) {
+										okName = false
+									}
+								}
+							}
+						}
+					}
+				}
 				r.Check(okName, "C10.d", core.FnKey(f)+"|account-match-name", p.Pos(mc.Pos()), "account entries are matched against the validator's wallet/account name", "account entries are matched against "+nd.String())
 				rd := ds.D(a[0])
 				r.Check(rd.HasFieldSuffix("Account"), "C10.d", core.FnKey(f)+"|account-match-regexp", p.Pos(mc.Pos()), "the regexp is the entry's compiled account specifier", "the regexp used is "+rd.String())
